@@ -14,23 +14,28 @@ import (
 // eligible validators per shard, new nodes, the union of shuffled-out validators). For a
 // case whose hashed key set is H the alphabet is, searched deterministically among the
 // candidates "r0".."r<poolSize-1>" with the REAL shuffleList (overlay export):
-//   - |H| <= t+1: one seed for each of the |H|! total orders of H (complete);
-//   - |H| >  t+1: a greedy cover (largest gain first, lowest index on ties) of every order of
-//     every t-subset of H and of every order of H's first t+1 keys.
-// t = 3 for C12 (so the design's "all 24 orders of a 4-element list"), t = 2 for C14.
+// a greedy cover (largest gain first, lowest index on ties) of every order of every
+// sub-subset of H and of every order of H's first ref keys (seedRule; both clipped to |H|, so
+// for |H| <= max(sub, ref) there is exactly one seed per total order of H: complete).
+// seedRule{3,4} gives the design's "all 24 orders of a 4-element list".
 const poolSize = 768
 
 type alphabets struct {
 	mu    sync.Mutex
 	rank  [][nIDs]int8 // rank[cand][id] = position of id in shuffleList(all hashable ids, cand)
 	cache map[string][]string
-	meta  map[string][2]int // key -> (strength, number of hashed keys)
+	meta  map[string]alphaMeta
+}
+
+type alphaMeta struct {
+	r seedRule
+	n int
 }
 
 func candidate(i int) string { return fmt.Sprintf("r%d", i) }
 
 func buildAlphabets(c *mc.Ctx, tasks []task) *alphabets {
-	al := &alphabets{cache: map[string][]string{}, meta: map[string][2]int{}}
+	al := &alphabets{cache: map[string][]string{}, meta: map[string]alphaMeta{}}
 	var all []uint8
 	for ch := 0; ch < 3; ch++ {
 		for i := 0; i < slots; i++ {
@@ -54,16 +59,16 @@ func buildAlphabets(c *mc.Ctx, tasks []task) *alphabets {
 	// distinct (hashed set, strength) pairs, computed in parallel, stored deterministically
 	type job struct {
 		h []uint8
-		t int
+		t seedRule
 	}
 	seen := map[string]bool{}
 	var jobs []job
 	for i := range tasks {
-		h := hashed(&tasks[i].cf, tasks[i].kn.nNew)
-		k := alphaKey(h, tasks[i].sl.tway)
+		h := hashed(tasks[i].cf, int(tasks[i].kn.nNew))
+		k := alphaKey(h, tasks[i].seedRule())
 		if !seen[k] {
 			seen[k] = true
-			jobs = append(jobs, job{h, tasks[i].sl.tway})
+			jobs = append(jobs, job{h, tasks[i].seedRule()})
 		}
 	}
 	res := make([][]string, len(jobs))
@@ -74,14 +79,14 @@ func buildAlphabets(c *mc.Ctx, tasks []task) *alphabets {
 			c.Fatal("seed search for %v: %s", j.h, errs[i])
 		}
 		al.cache[alphaKey(j.h, j.t)] = res[i]
-		al.meta[alphaKey(j.h, j.t)] = [2]int{j.t, len(j.h)}
+		al.meta[alphaKey(j.h, j.t)] = alphaMeta{j.t, len(j.h)}
 	}
 	return al
 }
 
-func alphaKey(h []uint8, t int) string { return fmt.Sprint(t, h) }
+func alphaKey(h []uint8, t seedRule) string { return fmt.Sprint(t.sub, t.ref, h) }
 
-func (al *alphabets) get(h []uint8, t int) []string {
+func (al *alphabets) get(h []uint8, t seedRule) []string {
 	s, ok := al.cache[alphaKey(h, t)]
 	if !ok {
 		panic("alphabet not prepared for " + alphaKey(h, t))
@@ -129,17 +134,20 @@ func subsets(h []uint8, t int) [][]uint8 {
 	return out
 }
 
-func (al *alphabets) search(h []uint8, t int) ([]string, string) {
+func (al *alphabets) search(h []uint8, t seedRule) ([]string, string) {
 	if len(h) == 0 {
 		return []string{candidate(0)}, ""
 	}
 	var groups [][]uint8
-	if len(h) <= t+1 {
-		groups = [][]uint8{h}
-	} else {
-		groups = subsets(h, t)
-		groups = append(groups, h[:t+1])
+	sub, ref := t.sub, t.ref
+	if sub > len(h) {
+		sub = len(h)
 	}
+	if ref > len(h) {
+		ref = len(h)
+	}
+	groups = subsets(h, sub)
+	groups = append(groups, h[:ref])
 	// goal: every group must show factorial(len(group)) distinct codes
 	covered := make([]map[uint32]bool, len(groups))
 	missing := 0
@@ -191,7 +199,7 @@ func (al *alphabets) summary() map[string]interface{} {
 	bySize := map[string][]int{}
 	for k, s := range al.cache {
 		m := al.meta[k]
-		key := fmt.Sprintf("strength%d/hashed%02d", m[0], m[1])
+		key := fmt.Sprintf("%s/hashed%02d", m.r, m.n)
 		bySize[key] = append(bySize[key], len(s))
 	}
 	out := map[string]interface{}{"candidate_pool": poolSize}
